@@ -12,7 +12,7 @@ import itertools
 from .model import AnalysisError, src, dotted, call_name, norm_stmt
 
 
-TOKENS = ("read", "call", "array", "attr", "op", "neg", "entry", "obj", "symmat", "tr", "slice", "matrix")
+TOKENS = ("read", "call", "array", "attr", "op", "neg", "entry", "obj", "symmat", "tr", "slice", "matrix", "type")
 
 
 def is_token(v):
@@ -20,10 +20,38 @@ def is_token(v):
 
 
 class Matrix:
-    def __init__(self, name):
+    """An array created by zeros / empty: entries default to 0 (reads of an entry never written give 0), writes are logged in order."""
+
+    def __init__(self, name, shape=None):
         self.name = name
+        self.shape = shape
         self.writes = {}
         self.order = []
+
+    def get(self, idx):
+        return self.writes.get(idx, 0)
+
+    def copy_with(self, f, shape=None):
+        m = Matrix(self.name, shape if shape is not None else self.shape)
+        for k, v in self.writes.items():
+            kk, vv = f(k, v)
+            m.writes[kk] = vv
+        return m
+
+
+class SymObj:
+    """A symbolic object of the analysed program (a leaf point, a leaf expression, ...): attributes in .attrs, identity semantics."""
+
+    def __init__(self, kind, **attrs):
+        self.kind = kind
+        self.attrs = attrs
+
+    def __repr__(self):
+        return "<%s %s>" % (self.kind, self.attrs.get("label", ""))
+
+
+def _is_rat(x):
+    return type(x).__name__ == "Rat"
 
 
 class _Return(Exception):
@@ -84,6 +112,16 @@ class IndexInterp:
                             ast.Mod: lambda: a % b, ast.Div: lambda: a / b, ast.Pow: lambda: a ** b}[type(e.op)]()
                 except (KeyError, ZeroDivisionError):
                     raise AnalysisError("arithmetic `%s`" % src(e))
+            if (_is_rat(a) or _is_rat(b)) and (num(a) or _is_rat(a)) and (num(b) or _is_rat(b)):
+                from fractions import Fraction
+                fa = Fraction(repr(a)) if isinstance(a, float) else a
+                fb = Fraction(repr(b)) if isinstance(b, float) else b
+                try:
+                    return {ast.Add: lambda: fa + fb, ast.Sub: lambda: fa - fb, ast.Mult: lambda: fa * fb, ast.Div: lambda: fa / fb}[type(e.op)]()
+                except KeyError:
+                    raise AnalysisError("arithmetic `%s`" % src(e))
+            if isinstance(a, Matrix) or isinstance(b, Matrix):
+                return self._matrix_op(e, a, b)
             if isinstance(a, list) and isinstance(b, list) and isinstance(e.op, ast.Add):
                 return a + b
             if isinstance(a, tuple) and isinstance(b, tuple) and isinstance(e.op, ast.Add) and not is_token(a) and not is_token(b):
@@ -134,7 +172,13 @@ class IndexInterp:
             if isinstance(base, tuple) and len(base) == 2 and base[0] == "array":
                 return ("read", base[1], idx)
             if isinstance(base, Matrix):
+                if isinstance(idx, int) or (isinstance(idx, tuple) and all(isinstance(x, int) for x in idx)):
+                    return base.get(idx)
                 return ("entry", base.name, idx)
+            if isinstance(base, dict):
+                if idx in base:
+                    return base[idx]
+                raise AnalysisError("KeyError: `%s`" % src(e)[:60])
             if isinstance(base, (list, tuple)) and isinstance(idx, int):
                 try:
                     return base[idx]
@@ -145,10 +189,49 @@ class IndexInterp:
             d = dotted(e)
             if d and d in self.env:
                 return self.env[d]
+            if isinstance(e.value, (ast.Name, ast.Attribute, ast.Subscript)):
+                try:
+                    base = self.ev(e.value) if not (isinstance(e.value, ast.Name) and e.value.id not in self.env and e.value.id not in self.symbolic) else None
+                except AnalysisError:
+                    base = None
+                if isinstance(base, SymObj):
+                    if e.attr in base.attrs:
+                        return base.attrs[e.attr]
+                    raise AnalysisError("attribute `%s` of a symbolic %s" % (e.attr, base.kind))
+                if isinstance(base, Matrix):
+                    if e.attr == "T":
+                        return base.copy_with(lambda k, v: ((k[1], k[0]) if isinstance(k, tuple) and len(k) == 2 else k, v),
+                                              shape=tuple(reversed(base.shape)) if isinstance(base.shape, tuple) else base.shape)
+                    if e.attr == "shape":
+                        return base.shape
             return ("attr", d or src(e))
         if isinstance(e, ast.Call):
             return self._call(e)
         raise AnalysisError("expression `%s` outside the index-program fragment" % src(e)[:60])
+
+    def _matrix_op(self, e, a, b):
+        from fractions import Fraction
+        conv = lambda x: Fraction(repr(x)) if isinstance(x, float) else x
+        ops = {ast.Add: lambda x, y: x + y, ast.Sub: lambda x, y: x - y, ast.Mult: lambda x, y: x * y, ast.Div: lambda x, y: x / y}
+        if type(e.op) not in ops:
+            raise AnalysisError("array arithmetic `%s`" % src(e))
+        f = ops[type(e.op)]
+        if not (isinstance(a, Matrix) and isinstance(b, Matrix)) and isinstance(e.op, (ast.Add, ast.Sub)):
+            return ("op", type(e.op).__name__, a, b)        # scalar broadcast over an array: kept symbolic
+        if isinstance(a, Matrix) and isinstance(b, Matrix):
+            if not isinstance(e.op, (ast.Add, ast.Sub)):
+                raise AnalysisError("array arithmetic `%s`" % src(e))
+            m = Matrix(a.name, a.shape)
+            for k in set(a.writes) | set(b.writes):
+                m.writes[k] = f(conv(a.get(k)), conv(b.get(k)))
+            return m
+        if isinstance(a, Matrix):
+            if not ((isinstance(b, (int, float)) or _is_rat(b)) and isinstance(e.op, (ast.Mult, ast.Div))):
+                raise AnalysisError("array arithmetic `%s`" % src(e))
+            return a.copy_with(lambda k, v: (k, f(conv(v), conv(b))))
+        if not ((isinstance(a, (int, float)) or _is_rat(a)) and isinstance(e.op, ast.Mult)):
+            raise AnalysisError("array arithmetic `%s`" % src(e))
+        return b.copy_with(lambda k, v: (k, f(conv(a), conv(v))))
 
     def _comp(self, gens, k, emit):
         if k == len(gens):
@@ -161,6 +244,8 @@ class IndexInterp:
                 self._comp(gens, k + 1, emit)
 
     def _iterate(self, v, node):
+        if isinstance(v, dict):
+            return list(v.keys())
         if isinstance(v, (list, tuple, range)) and not is_token(v):
             return list(v)
         raise AnalysisError("iteration over `%s` outside the index-program fragment" % src(node)[:60])
@@ -199,9 +284,38 @@ class IndexInterp:
         if plain and nm in ("int", "float", "abs") and len(args) == 1 and isinstance(args[0], (int, float)):
             return {"int": int, "float": float, "abs": abs}[nm](args[0])
         if nm in ("zeros", "empty", "zeros_like", "empty_like") and not isinstance(e.func, ast.Name):
-            m = Matrix("matrix%d" % (len(self.matrices) + 1))
+            shape = args[0] if args else None
+            if isinstance(shape, list):
+                shape = tuple(shape)
+            if isinstance(shape, int):
+                shape = (shape,)
+            m = Matrix("matrix%d" % (len(self.matrices) + 1), shape if isinstance(shape, tuple) and all(isinstance(x, int) for x in shape) else None)
             self.matrices.append(m)
             return m
+        if nm in ("array", "asarray") and not isinstance(e.func, ast.Name) and len(args) == 1 and isinstance(args[0], (list, tuple)) and not is_token(args[0]):
+            return list(args[0])
+        if isinstance(e.func, ast.Attribute) and nm in ("items", "keys", "values", "get", "copy"):
+            base = self.ev(e.func.value)
+            if isinstance(base, dict):
+                if nm == "items":
+                    return list(base.items())
+                if nm == "keys":
+                    return list(base.keys())
+                if nm == "values":
+                    return list(base.values())
+                if nm == "copy":
+                    return dict(base)
+                return base.get(args[0], args[1] if len(args) > 1 else None)
+        if plain and nm == "type" and len(args) == 1:
+            v = args[0]
+            if isinstance(v, SymObj):
+                return ("type", v.kind)
+            return ("type", type(v).__name__ if not _is_rat(v) else "float")
+        if plain and nm == "isinstance" and len(args) == 2:
+            v, t = args
+            ts = t if isinstance(t, tuple) and not is_token(t) else (t,)
+            kind = ("type", v.kind) if isinstance(v, SymObj) else ("type", "float" if _is_rat(v) else type(v).__name__)
+            return kind in ts
         return ("call", " ".join(src(e.func).split()), tuple(args), tuple(sorted(kw.items())))
 
     # ------------------------------------------------------------------ statements
@@ -253,7 +367,10 @@ class IndexInterp:
                 if cur is None:
                     raise AnalysisError("augmented assignment to the unbound `%s`" % src(s.target))
                 rhs = self.ev(s.value)
-                if isinstance(cur, (int, float)) and isinstance(rhs, (int, float)):
+                if (_is_rat(cur) or _is_rat(rhs)) and isinstance(s.op, (ast.Add, ast.Sub, ast.Mult, ast.Div)):
+                    res = {ast.Add: lambda: cur + rhs, ast.Sub: lambda: cur - rhs, ast.Mult: lambda: cur * rhs, ast.Div: lambda: cur / rhs}[type(s.op)]
+                    self._bind(s.target, res())
+                elif isinstance(cur, (int, float)) and isinstance(rhs, (int, float)):
                     res = {ast.Add: lambda: cur + rhs, ast.Sub: lambda: cur - rhs, ast.Mult: lambda: cur * rhs, ast.FloorDiv: lambda: cur // rhs}.get(type(s.op))
                     if res is None:
                         raise AnalysisError("statement `%s`" % norm_stmt(s)[:50])
